@@ -111,6 +111,37 @@ def _enum_many_open():
         yield {"events": evs}
 
 
+def _enum_interleaved_files():
+    """One test whose attachments arrive interleaved (f, g, f, g, ...), with a text attachment cut inside a
+    multi-byte character, a file called 'traceback', and every final status."""
+    def ev(**kw):
+        base = dict(test_id="a", route_code=None, test_status=None, test_tags=None, runnable=True, timestamp=1,
+                    file_name=None, file_bytes=None, eof=False, mime_type=None)
+        base.update(kw)
+        return base
+    for status in ("success", "fail", "xfail", "skip", "uxsuccess", None):
+        for names in (("f", "g"), ("f", "traceback"), ("traceback", "g", "f")):
+            for rounds in (2, 3):
+                evs = [ev(test_status="inprogress")]
+                for r in range(rounds):
+                    for k, n in enumerate(names):
+                        text = n != "g"
+                        chunk = (b"caf\xc3", b"\xa9 ", b"au lait")[r] if text else bytes([r, 255, k])
+                        evs.append(ev(file_name=n, file_bytes=chunk, mime_type='text/plain; charset="utf8"' if text else "application/octet-stream"))
+                        if r == 0:
+                            # another test's events in between
+                            evs.append(ev(test_id="b", test_status="inprogress", file_name="f", file_bytes=b"other", mime_type="text/plain"))
+                if rounds == 2:
+                    continue_ok = False      # a text attachment that stops inside a character is not valid text: make it whole
+                    for n in names:
+                        if n != "g":
+                            evs.append(ev(file_name=n, file_bytes=b"", mime_type='text/plain; charset="utf8"'))
+                if status is not None:
+                    evs.append(ev(test_status=status, timestamp=2))
+                yield {"events": evs}
+                yield {"events": evs, "mode": "lockstep"}
+
+
 def _enum_long():
     for n in (1, 63, 64, 65, 66, 130):
         for two in (False, True):
@@ -327,7 +358,7 @@ def run_case(spec):
     return Case(vs, nt, [l for l in labels if l], {"reports": [r[0][:2] for r in reports]})
 
 
-EVENTS = st.lists(streams.event(ids=(None, "a", "b", "c", "0/a", "")), max_size=25)
+EVENTS = st.lists(streams.event(ids=(None, "a", "b", "c", "0/a", ""), stamps=(None, 0, 1, 2, 3, 5, "usec", "tz", "naive")), max_size=25)
 NPOS = st.lists(st.integers(0, 10), max_size=25)
 
 
@@ -380,6 +411,9 @@ def subchecks(tier):
             2500 if q else 150000),
         Sub("many_open_tests_and_big_attachments", run_case, enum=_enum_many_open, enum_complete=True,
             note="65 / 300 / 1100 tests in progress at once; attachments of 3 x 5000, 3 x 70000, 3 x 1 MiB bytes"),
+        Sub("interleaved_attachments", run_case, enum=_enum_interleaved_files, enum_complete=True,
+            note="one test, attachments arriving interleaved (f, g, f, ...; also a file called 'traceback'), a text attachment cut "
+                 "inside a multi-byte character, another test's events in between, every final status and none"),
         Sub("long_attachments", run_case, enum=_enum_long, enum_complete=True,
             note="one or two tests with 1, 63, 64, 65, 66, 130 chunks of one attachment"),
         Sub("enumerated_streams", run_case, enum=gen, enum_complete=True,
